@@ -542,7 +542,7 @@ inline BatchResult runBatch(const Options& opt, uint64_t nRuns, const RunFn& fn,
                 }
                 if (!rep.sample.empty() && run < (uint64_t)W * 2) detail::writeAll(out, "P " + rep.sample + "\n");
                 detail::writeAll(out, "E " + std::to_string(run) + "\n");
-                if (nAcc >= 256 || wallNow() - lastFlush > 0.5) { flush(); lastFlush = wallNow(); }
+                if (nAcc >= 64 || wallNow() - lastFlush > 0.25) { flush(); lastFlush = wallNow(); }
             }
             flush();
             detail::writeAll(out, "D\n");
